@@ -101,6 +101,8 @@ def gen_case(rng):
     case = {"actors": actors, "prefill": rng.random() < (0.1 if focus else 0.5), "sched_seed": rng.randrange(1 << 31),
             "strategy": rng.choice(["random", "sticky", "sticky", "pct", "targeted", "targeted"]),
             "kills": rng.choice([0, 0, 0, 1, 2]), "compress": rng.random() < 0.15}
+    if rng.random() < 0.2:
+        case["mmap"] = True         # Memory(mmap_mode='r'): a computed result is read back from the store before it is returned
     return case
 
 
